@@ -1,52 +1,103 @@
-(* C05 — resolve terminates with Ok or NoSolution; no panic, no internal Failure (model side, PARTIAL).
+(* C05 (partial: everything but termination) — For any well-behaved provider over a finite registry, resolve
+   returns Ok or NoSolution [...]; it does not panic [...] or return PubGrubError::Failure.
 
-   What is proved about the model of resolve (Proofs/SolverProto2.v, Proofs/SolverShared.v):
-   - [no_failure]: with a provider whose choose_version answers inside the offered set, the outcome is never
-     Failure — neither "a package was chosen but we don't have a term" (excluded for ANY trace: a queued package
-     always has an assignment) nor "choose_package_version picked an incompatible version";
-   - [derivation_tree_always_built]: building the derivation tree of a NoSolution never fails (the bounded DFS and
-     the bounded recursion of the model always have enough fuel on the store of a run).
-   What is NOT proved: termination (the model runs on fuel; `OOutOfFuel` is not excluded — PubGrub's termination
-   argument is outside what this development reaches, DESIGN.md section 10) and the unreachability of the remaining
-   panic sites (one `OPanic` outcome per panic!/unwrap/expect/unreachable!/debug_assert! of the source); both are
-   decided by exploration: every case of the solver stream runs under catch_unwind with a call budget and a
-   watchdog, with debug assertions and overflow checks on, and the model must reproduce the run. *)
+   For every lawful VersionSet WITH ATOMIC SINGLETONS (the extra law [singleton_atomic]: over the semantic
+   universe a singleton contains no point other than the one of its version; it holds for Range<V> and for the
+   bitset, Proofs/SolverNoPanicInst.v, and it is necessary, Proofs/SolverNoPanicLaw.v), every registry whose
+   dependency sets are well formed, every provider trace that agrees with the registry, every amount of fuel:
+   the model of resolve never reaches one of its 19 [Panic] outcomes (one per panic! / unwrap / expect /
+   unreachable! / debug_assert! of the source), nor Failure("... we don't have a term"); if moreover every
+   chosen version lies in the offered set, every outcome other than Ok / NoSolution / out of fuel / "the trace
+   is not a run of the model" is an error answer of the provider passed on.
+   NOT covered: termination (the model has fuel; [OOutOfFuel] is not excluded), overflow.
+
+   Proof (Proofs/SolverNoPanic1.v, SolverNoPanic2.v, SolverNoPanic.v): state invariant [ninv] = the invariant
+   [jinv] of C04 + no stored incompatibility has an "any" term + the index of incompatibilities only lists
+   allocated ids whose packages all have an index entry + every assigned package has an index entry + the first
+   dated derivation of a package carries its smallest level + (over the universe U) accumulated terms shrink and
+   every derivation is justified by its cause + a decision opens its level + only the root is assigned at level
+   0 and decided at level 1 + queued packages are undecided with a positive term. *)
 From Coq Require Import List NArith Bool.
 From PG Require Import Model.VS Model.Term Model.Solver Model.Registry Proofs.VSLaws Proofs.SolverSem
-  Proofs.SolverStore Proofs.SolverShared Proofs.SolverProto2.
+  Proofs.SolverStore Proofs.SolverShared Proofs.SolverProto2 Proofs.SolverNoPanic1 Proofs.SolverNoPanic.
 Import ListNotations.
 
 Section C05.
   Context {VS Vr : Type} (O : VSOps VS Vr) (L : VSLawful O) (veqb : Vr -> Vr -> bool).
-  Notation event := (event (VS := VS) (Vr := Vr)).
+  Context (reg : registry (VS := VS) (Vr := Vr)) (r : pkg) (rv : Vr).
 
-  Theorem no_failure_without_a_term :
-    forall fuel r rv (tr : list event) o st log cnt,
+  (* the extra law, unfolded *)
+  Theorem singleton_atomic_unfold :
+    singleton_atomic O L <-> forall v u, mem O L (vs_singleton O v) u = true -> u = pt O L v.
+  Proof. reflexivity. Qed.
+
+  Theorem resolve_no_panic :
+    singleton_atomic O L -> reg_wf O L reg -> (forall a b, veqb a b = true -> a = b) ->
+    forall fuel (tr : list (event (VS := VS) (Vr := Vr))) o st log cnt,
+      WellBehaved O reg tr ->
+      resolve O veqb fuel r rv tr = (o, st, log, cnt) -> forall s, o <> OPanic s.
+  Proof. intros Ha Hw Hv. exact (SolverNoPanic.resolve_no_panic O L veqb reg r rv Ha Hw Hv). Qed.
+
+  Theorem resolve_no_term_failure :
+    singleton_atomic O L -> reg_wf O L reg -> (forall a b, veqb a b = true -> a = b) ->
+    forall fuel (tr : list (event (VS := VS) (Vr := Vr))) o st log cnt,
+      WellBehaved O reg tr ->
       resolve O veqb fuel r rv tr = (o, st, log, cnt) -> o <> OFailure FNoTerm.
-  Proof. exact (resolve_no_failure_noterm O L veqb). Qed.
+  Proof. intros Ha Hw Hv. exact (SolverNoPanic.resolve_no_term_failure O L veqb reg r rv Ha Hw Hv). Qed.
 
+  Theorem resolve_ok_or_nosolution :
+    singleton_atomic O L -> reg_wf O L reg -> (forall a b, veqb a b = true -> a = b) ->
+    forall fuel (tr : list (event (VS := VS) (Vr := Vr))) o st log cnt,
+      WellBehaved O reg tr ->
+      (forall p s v, In (EvChoose p s (CSome v)) tr -> vs_contains O s v = true) ->
+      (~ In (EvCancel false) tr /\ (forall p s, ~ In (EvChoose p s CErr) tr) /\ (forall p v, ~ In (EvDeps p v DErr) tr)) ->
+      resolve O veqb fuel r rv tr = (o, st, log, cnt) ->
+      (exists sol, o = OSolution sol) \/ (exists t, o = ONoSolution t) \/ o = OOutOfFuel
+      \/ (exists k w, o = OMismatch k w) \/ (exists k p, o = OPickNotMax k p).
+  Proof. intros Ha Hw Hv. exact (SolverNoPanic.resolve_ok_or_nosolution O L veqb reg r rv Ha Hw Hv). Qed.
+
+  (* Failure is excluded already for ANY trace in which choose_version answers inside the offered set, with no
+     hypothesis on the VersionSet beyond lawfulness (Proofs/SolverProto2.v) *)
   Theorem no_failure :
-    forall fuel r rv (tr : list event) o st log cnt f,
+    forall fuel (tr : list (event (VS := VS) (Vr := Vr))) o st log cnt f,
       ChooseInside O tr -> resolve O veqb fuel r rv tr = (o, st, log, cnt) -> o <> OFailure f.
-  Proof. exact (resolve_no_failure_inside O L veqb). Qed.
+  Proof. intros fuel tr. exact (resolve_no_failure_inside O L veqb fuel r rv tr). Qed.
 
-  (* reading of the hypothesis: every version answer of choose_version lies in the offered set *)
-  Theorem choose_inside_unfold :
-    forall tr : list event, ChooseInside O tr <->
-      forall p s v, In (EvChoose p s (CSome v)) tr -> vs_contains O s v = true.
-  Proof.
-    intros tr. unfold ChooseInside. rewrite Forall_forall. split.
-    - intros H p s v Hin. exact (H _ Hin).
-    - intros H e Hin. destruct e as [| |p s [v| |]|]; cbn; try exact I. exact (H p s v Hin).
-  Qed.
-
+  (* building the derivation tree of a NoSolution never fails (the fuel of the model's two passes suffices) *)
   Theorem derivation_tree_always_built :
-    forall (reg : registry (VS := VS) (Vr := Vr)) r rv s top,
-      store_just O L reg r rv s -> top < length s -> exists t, build_derivation_tree s top = Some t.
-  Proof. intros reg r rv. exact (store_just_tree_total O L reg r rv). Qed.
+    forall s top, store_just O L reg r rv s -> top < length s -> exists t, build_derivation_tree s top = Some t.
+  Proof. exact (store_just_tree_total O L reg r rv). Qed.
 End C05.
 
-Print Assumptions no_failure_without_a_term.
+(* the extra law holds for the two instances of the development ... *)
+From Coq Require Import Orders ZArith.
+From PG Require Import Model.Range Proofs.BitsetLawful Proofs.RangeVS Proofs.SolverNoPanicInst Proofs.SolverNoPanicLaw.
+Module C05Range (V : UsualOrderedTypeFull).
+  Module Import P := RangeAtomicP V.
+  Theorem range_has_atomic_singletons : singleton_atomic range_vs range_lawful.
+  Proof. exact range_singleton_atomic. Qed.
+End C05Range.
+Theorem bitset_has_atomic_singletons : singleton_atomic bitset_vs bitset_lawful.
+Proof. exact bitset_singleton_atomic. Qed.
+
+(* ... and it cannot be dropped: a VersionSet that satisfies every law of [VSLawful] but whose singletons are not
+   atomic makes the model panic on a well-behaved trace over a well-formed registry *)
+Theorem atomic_singletons_needed_refuted :
+  exists (L : VSLawful na_vs) reg tr st log,
+    ~ singleton_atomic na_vs L /\ reg_wf na_vs L reg /\ WellBehaved na_vs reg tr
+    /\ resolve na_vs Bool.eqb 50 0%N true tr = (OPanic PDerivationAfterDecision, st, log, 13%nat).
+Proof.
+  destruct nonatomic_panic as (st & log & E).
+  exists na_lawful, na_reg, na_tr, st, log. exact (conj na_not_atomic (conj na_reg_wf (conj na_tr_wb E))).
+Qed.
+
+(* non-vacuity: Proofs/SolverNoPanicInst.v applies the theorems to three recorded Range<Z> runs; necessity of the
+   extra law: Proofs/SolverNoPanicLaw.v ([nonatomic_panic]) *)
+Print Assumptions resolve_no_panic.
+Print Assumptions resolve_no_term_failure.
+Print Assumptions resolve_ok_or_nosolution.
+Print Assumptions singleton_atomic_unfold.
 Print Assumptions no_failure.
-Print Assumptions choose_inside_unfold.
 Print Assumptions derivation_tree_always_built.
+Print Assumptions bitset_has_atomic_singletons.
+Print Assumptions atomic_singletons_needed_refuted.
